@@ -6,6 +6,7 @@ import (
 	"fmt"
 	"math/big"
 	"os"
+	"regexp"
 	"sort"
 	"strings"
 	"sync"
@@ -76,9 +77,10 @@ type fop struct {
 }
 
 type machine struct {
-	c    *chain.Case
-	prop string // "C05" or "C06": which oracle clauses are active
-	lpts []string
+	editGenesis bool // the restart in progress imports a hand-edited spelling of the export
+	c           *chain.Case
+	prop        string // "C05" or "C06": which oracle clauses are active
+	lpts        []string
 
 	pools []*mpool
 	fee   *big.Int
@@ -246,6 +248,9 @@ func (m *machine) refundTo(e *chain.Expect, p *mpool, ref map[string]*big.Int) {
 	}
 }
 
+// farmAddrRe matches the address fields of an exported farm genesis.
+var farmAddrRe = regexp.MustCompile(`"(creator|address)":\s*"([a-z0-9]+)"`)
+
 func poolID(idx int) string { return fmt.Sprintf("%s-%d", farmtypes.PrefixFarmPool, idx+1) }
 
 // spelledID writes a pool id the way the operation asks for: canonical, with a leading zero, or as the bare number.
@@ -407,7 +412,9 @@ func (m *machine) Apply(o fop) error {
 	case "params":
 		err = m.applyParams(o)
 	case "restart":
+		m.editGenesis = o.Spell != 0
 		err = m.applyBlockOpt(true)
+		m.editGenesis = false
 	case "cpool":
 		err = m.applyCommunityPool(o)
 	default:
@@ -1153,7 +1160,23 @@ func (m *machine) applyBlockOpt(restart bool) error {
 			var stage string
 			var err error
 			if inject == nil {
+				if m.editGenesis {
+					// the exported file edited by hand: a blank after every address (a spelling the module's validation
+					// is expected to refuse - then the export is imported as it is; if it is accepted, the history goes on
+					// and every clause holds for the accounts meant)
+					m.c.GenesisEdit = func(_ string, exported json.RawMessage) json.RawMessage {
+						return farmAddrRe.ReplaceAll(exported, []byte(`"$1":"$2 "`))
+					}
+				}
+				ei, er := m.c.EditedImports, m.c.EditedRefused
 				_, stage, err = m.c.Reimport(farmtypes.ModuleName)
+				m.c.GenesisEdit = nil
+				if m.c.EditedImports > ei {
+					m.class("restart-from-a-genesis-with-blanks-after-addresses")
+				}
+				if m.c.EditedRefused > er {
+					m.class("genesis-with-blanks-after-addresses-refused")
+				}
 			}
 			if err != nil {
 				what := "reimport-" + stage
